@@ -1,6 +1,7 @@
 package props
 
 import (
+	"go/constant"
 	"fmt"
 	"go/ast"
 	"go/token"
@@ -153,6 +154,7 @@ func checkC01(c *Ctx) {
 		checkSiblingFlagDefinitions(c, "C01.R10.sibling-flags", gen, "GenItems", "NeedsIndex", 3)
 	}
 	checkVersionedImports(c, "C01.R14.versioned-imports", gen)
+	checkEnumVariantTable(c, "C01.R20.enum-variant-table", gen)
 
 	// ---- R9 code swallowed by a comment
 	c.Rule("C01.R9.commented-code", "no template text holding Go statement tokens (`:=`, `err != nil`, `if err`, `func (`, `); err`) is lexed inside a comment in any instantiation (whitespace trimming that glues code onto a comment line)", 1)
@@ -1050,5 +1052,60 @@ func checkValidationLifts(c *Ctx, rule string, gen *packages.Package) {
 	}
 	if n < 6 {
 		c.Unk(rule, "generator › HasValidations lifts", "", fmt.Sprintf("%d conditions found", n))
+	}
+}
+
+// checkEnumVariantTable: cleanupEnumVariant spells the characters a Go identifier cannot hold, and that the
+// name mangler would drop, into words before an enum value becomes the name of a constant: values that differ
+// by such a character only (`A` / `A+`, `C` / `C++`, `v1.0` / `v10`, `a-b` / `ab`, `#1` / `1`) must not end up
+// as one name declared twice. Reviewed set: . + - # — each present, with a replacement of its own.
+func checkEnumVariantTable(c *Ctx, rule string, gen *packages.Package) {
+	c.Rule(rule, "replaceSpecialChar has a row for each of . + - # and no two rows give the same word", 4)
+	info := gen.TypesInfo
+	rows := map[rune]string{}
+	var at token.Pos
+	for _, fd := range load.AllFuncs(gen) {
+		if fd.Body == nil || fd.Recv != nil || fd.Name.Name != "replaceSpecialChar" {
+			continue
+		}
+		at = fd.Pos()
+		ast.Inspect(fd.Body, func(m ast.Node) bool {
+			cc, ok := m.(*ast.CaseClause)
+			if !ok {
+				return true
+			}
+			word := ""
+			for _, st := range cc.Body {
+				if rs, ok := st.(*ast.ReturnStmt); ok && len(rs.Results) == 1 {
+					word, _ = goan.StringVal(info, rs.Results[0])
+				}
+			}
+			for _, e := range cc.List {
+				if tv, ok := info.Types[e]; ok && tv.Value != nil {
+					if v, ok := constant.Int64Val(constant.ToInt(tv.Value)); ok {
+						rows[rune(v)] = word
+					}
+				}
+			}
+			return true
+		})
+	}
+	if at == token.NoPos {
+		c.Anchor(rule, "generator.replaceSpecialChar", "not found")
+		return
+	}
+	words := map[string]rune{}
+	for _, r := range []rune{'.', '+', '-', '#'} {
+		key := "generator.replaceSpecialChar › row '" + string(r) + "'"
+		w, ok := rows[r]
+		switch {
+		case !ok || strings.Trim(w, "-") == "":
+			c.Bad(rule, key, c.posOf(gen, at), "no word for '"+string(r)+"': the mangler drops the character, so two enum values that differ by it only (`A` and `A"+string(r)+"`) get the same constant name and the generated package declares it twice")
+		case words[w] != 0:
+			c.Bad(rule, key, c.posOf(gen, at), "'"+string(r)+"' and '"+string(words[w])+"' are both spelled "+w+": enum values that differ by one for the other get the same constant name")
+		default:
+			words[w] = r
+			c.Ok(rule, key, c.posOf(gen, at), w)
+		}
 	}
 }
